@@ -15,6 +15,7 @@ pub fn spec_for(prop: &str, seed: u64, case: u64) -> OptSpec {
     let mut rng = Rng::for_case(seed, prop, case, 0);
     match prop {
         "C11" => crate::props::c11::gen_spec(&mut rng),
+        "C15" => crate::props::c15::gen_spec(&mut rng),
         "C18" => crate::props::c18::gen_spec(&mut rng),
         p => panic!("no child generator for {}", p),
     }
